@@ -62,6 +62,7 @@ impl Used {
     }
 }
 
+#[derive(Clone)]
 pub struct WildOpts {
     pub max_args: usize,
     pub max_groups: usize,
@@ -503,7 +504,44 @@ pub fn wild_cmd(rng: &mut Rng, o: &WildOpts, depth_left: usize, name: String, in
 }
 
 pub fn wild(rng: &mut Rng, o: &WildOpts) -> CmdSpec {
+    // far ends of the size of a definition: now and then a deep narrow tree or a wide flat level
+    let shape = rng.below(24);
+    let big;
+    let o = match shape {
+        0 => {
+            big = WildOpts { depth: o.depth + 3, max_subs: 2, ..o.clone() };
+            &big
+        }
+        1 => {
+            big = WildOpts { depth: o.depth.min(1), max_subs: o.max_subs * 3, max_args: o.max_args * 3, max_groups: o.max_groups + 2, ..o.clone() };
+            &big
+        }
+        _ => o,
+    };
     let mut c = wild_cmd(rng, o, o.depth, "prog".into(), &Used::default());
+    if shape == 2 || shape == 3 {
+        // far more arguments in one command than any hand-written test has (word-size boundaries)
+        let n = *rng.pick(&[31usize, 32, 33, 63, 64, 65, 66, 100, 129, 260]);
+        let tgt = if shape == 3 && !c.subs.is_empty() && !c.has(Setting::Multicall) { let i = rng.below(c.subs.len()); &mut c.subs[i] } else { &mut c };
+        if !tgt.has(Setting::Multicall) {
+            for i in 0..n {
+                let mut a = ArgSpec { id: format!("many{}", i), long: Some(format!("many{}", i)), ..Default::default() };
+                a.action = Some(match rng.below(4) {
+                    0 => Act::Set,
+                    1 => Act::Count,
+                    2 => Act::Append,
+                    _ => Act::SetTrue,
+                });
+                if rng.chance(1, 20) {
+                    a.required = true;
+                }
+                if i > 0 && rng.chance(1, 10) {
+                    a.requires.push(format!("many{}", rng.below(i)));
+                }
+                tgt.args.push(a);
+            }
+        }
+    }
     if rng.chance(1, 6) {
         c.term_width = Some(rng.below(120));
     }
@@ -730,6 +768,27 @@ pub fn hostile_argv(rng: &mut Rng, root: &CmdSpec, max_tokens: usize) -> Vec<OsS
             b"--".to_vec()
         } else if r < 70 {
             b"help".to_vec()
+        } else if r < 72 {
+            // far end of "any length": one very long token
+            let n = *rng.pick(&[64usize, 255, 256, 1000, 5000]);
+            match rng.below(6) {
+                0 if !names.shorts.is_empty() => {
+                    let mut s = String::from("-");
+                    for _ in 0..n {
+                        s.push(*rng.pick(&names.shorts));
+                    }
+                    s.into_bytes()
+                }
+                1 if !names.longs.is_empty() => format!("--{}={}", rng.pick(&names.longs), "v".repeat(n)).into_bytes(),
+                2 => "-".repeat(n).into_bytes(),
+                3 => "a,".repeat(n / 2).into_bytes(),
+                4 => {
+                    let mut v = "é".repeat(n / 2).into_bytes();
+                    v.push(0xff);
+                    v
+                }
+                _ => "a".repeat(n).into_bytes(),
+            }
         } else {
             rng.pick(HOSTILE_TOKENS).to_vec()
         };
@@ -817,6 +876,14 @@ pub fn sanitize(c: &mut CmdSpec) {
                 a.hint = Some(1);
             }
         }
+    }
+    // positional rules follow index order, which explicit indices may make differ from declaration order
+    let mut order: Vec<usize> = (0..c.args.len()).filter(|i| c.args[*i].is_positional()).collect();
+    if explicit == npos {
+        order.sort_by_key(|i| c.args[*i].index.unwrap_or(0));
+    }
+    for &ai in &order {
+        let a = &mut c.args[ai];
         if a.is_positional() {
             k += 1;
             if explicit != npos {
@@ -860,7 +927,7 @@ pub fn sanitize(c: &mut CmdSpec) {
     }
     // a multi-valued positional that is second to last requires the last one to be `last` or required
     if npos >= 2 {
-        let idxs: Vec<usize> = c.args.iter().enumerate().filter(|(_, a)| a.is_positional()).map(|(i, _)| i).collect();
+        let idxs: Vec<usize> = order.clone();
         let second = idxs[npos - 2];
         let last = idxs[npos - 1];
         let second_multi = c.args[second].eff_num_args().1 > 1 || c.args[second].action == Some(Act::Append);
